@@ -516,7 +516,7 @@ def m_option(ctx):
     if op in ('is_some', 'is_none'):
         return on_variant(ex, st, o, {'Some': T(op == 'is_some'), 'None': T(op == 'is_none')})
     if op in ('ok_or', 'ok_or_eyre'):
-        return on_variant(ex, st, o, {'Some': lambda s2, o2: ok(P(s2, o2)), 'None': lambda s2, o2: err(s2.tr(A[1]) if op == 'ok_or' else None)})
+        return on_variant(ex, st, o, {'Some': lambda s2, o2: ok(P(s2, o2)), 'None': lambda s2, o2: err(s2.tr(A[1]) if op == 'ok_or' else (as_report(s2.tr(A[1])) if len(A) > 1 else None))})
     if op in ('unwrap', 'expect', 'unwrap_unchecked'):
         return on_variant(ex, st, o, {'Some': P, 'None': lambda s2, o2: Diverge('panic', f'Option::{op} on None')})
     if op == 'unwrap_or':
@@ -666,6 +666,22 @@ RESUMERS['not'] = lambda ex, st, cont, rv, work: ('value', z3.Not(rv))
 
 
 # ---------------------------------------------------------------- conversions / clone / deref
+@model(r'^<(\w+) as (TryFrom|TryInto)<(\w+)>>::(try_from|try_into)$')
+def m_int_try_from(ctx):
+    m = re.match(r'^<(\w+) as (TryFrom|TryInto)<(\w+)>>::(try_from|try_into)$', ctx.callee)
+    a, b = (m.group(1), m.group(3)) if m.group(2) == 'TryFrom' else (m.group(3), m.group(1))      # a = target, b = source
+    if a not in INT_TY or b not in INT_TY:
+        return None
+    v = ctx.args[0]; na, nb = INT_TY[a], INT_TY[b]; sa, sb = a in SIGNED, b in SIGNED
+    w = max(na, nb) + 1
+    ext = (lambda x, n, sg: (z3.SignExt if sg else z3.ZeroExt)(w - n, x))
+    wide = ext(v, nb, sb)
+    lo = z3.BitVecVal(-(1 << (na - 1)) if sa else 0, w); hi = z3.BitVecVal((1 << (na - 1)) - 1 if sa else (1 << na) - 1, w)
+    fits = z3.And(wide >= lo, wide <= hi)
+    val = z3.Extract(na - 1, 0, wide)
+    return [(fits, (lambda s2: ok(val))), (z3.Not(fits), (lambda s2: err(Obj('TryFromIntError', kind='error'))))]
+
+
 @model(r'^<.+ as (From|Into)<.+>>::(from|into)$')
 def m_from_into(ctx):
     ex = ctx.ex
@@ -685,6 +701,14 @@ def m_from_into(ctx):
         return [(None, v)]
     if re.search(r'(ErrReport|Report|eyre|anyhow|Box<dyn)', a):
         return [(None, as_report(v))]
+    if m.group(2) == 'Into':
+        tgt = ex.resolve_fn(f'<{a} as From<{b}>>::from', 1)
+        if tgt:
+            ex.push(ctx.st, tgt, [v], ctx.dest, ctx.nxt)
+            return PUSHED
+    if a.split('::')[-1].endswith('Error') and b.split('::')[-1].endswith('Error'):
+        o = Obj(a, kind='error'); o.attrs['source'] = v; o.attrs['class'] = b.split('::')[-1]
+        return [(None, o)]
     return None
 
 
@@ -692,7 +716,24 @@ def as_report(v):
     if isinstance(v, Obj) and v.kind == 'error':
         return v
     o = Obj('Report', kind='error'); o.attrs['source'] = v
+    if isinstance(v, Obj):
+        o.attrs['class'] = (v.attrs.get('const') or type_head(v.ty)).split('::')[-1]
     return o
+
+
+@model(r'downcast_ref::<(.+)>$')
+def m_downcast_ref(ctx):
+    ex, st = ctx.ex, ctx.st
+    e = ex.deref_val(st, ctx.args[0])
+    want = type_head(re.search(r'downcast_ref::<(.+)>$', ctx.callee).group(1)).split('::')[-1]
+    if not isinstance(e, Obj) or e.kind != 'error':
+        raise MirError('downcast_ref on non-error ' + repr(e))
+    cls = e.attrs.get('class')
+    if cls == want:
+        return [(None, some(e.attrs['source']))]
+    if cls is None and e.attrs.get('opaque_class'):
+        raise MirError('downcast_ref on an error of unknown class')
+    return [(None, none())]
 
 
 @model(r'^<.+ as Clone>::clone$|^<.+ as ToOwned>::to_owned$|^<.+ as Copy>')
